@@ -168,6 +168,13 @@ func cmdProp(args []string) {
 		scfg.Par = 4
 	}
 	solveAll(units, scfg)
+	retryT := 45
+	if *tier == "thorough" {
+		retryT = 120
+	}
+	if n := retryUndecided(units, scfg, retryT); n > 0 {
+		fmt.Fprintf(os.Stderr, "retried %d undecided obligation(s) with a seed portfolio\n", n)
+	}
 
 	// expected obligation names (vacuity guard: nothing may silently disappear)
 	expPath := filepath.Join(*verif, "props", cfg.ID+".expected")
